@@ -1,7 +1,4 @@
-import NpsVerif.Model.Scan
-import NpsVerif.Spec.Rows
-namespace Props.C07
-open Model
-/-- sanity instance; the universally quantified theorems are added as they are proved -/
-theorem cumsum_example : (cumsumRows (RA.ofRows [[1, 2], [], [3, 4, 5], []])).rows = [[1, 3], [], [3, 7, 12], []] := by decide
-end Props.C07
+import NpsVerif.Props.C07Scan
+import NpsVerif.Props.C07Sort
+/-! Property C07: theorems in `Props/C07Scan.lean` (cumsum, accumulate, diff) and `Props/C07Sort.lean`
+(sort, unique with counts). -/
